@@ -124,6 +124,8 @@ EXT_ING = {
     "tcp2": dict(label="tcp2", rules=[R("tcp.local", P("/", "s2"))], ann={"tcp-service-port": "7001"}),
     "tcp3": dict(label="tcp3", rules=[R("tcp2.local", P("/", "s1"))], ann={"tcp-service-port": "7001"}, tls=[T("c1", "tcp2.local")]),
     "tcp4": dict(label="tcp4", rules=[R("", P("/", "s2"))], ann={"tcp-service-port": "7002"}),
+    "tcp7": dict(label="tcp7", rules=[R("tcpr.local", P("/", "res:bucket"))], ann={"tcp-service-port": "7001"}),   # resource backend
+    "resb": dict(label="resb", rules=[R(H1, P("/r", "res:bucket"), P("/s", "s1"))]),
     "defb": dict(label="defb", rules=[R(H1, P("/x", "s1"))], **{"def": P("", "s2")}),
     "wild": dict(label="wild", rules=[R("*.h1.local", P("/", "s2"))], tls=[T("c2", "*.h1.local")]),
     "multi": dict(label="multi", rules=[R(H1, P("/m", "s1"), P("/m/n", "s2", "prefix"), P("/M", "s2", "exact")), R(H2, P("/m", "s1"))]),
